@@ -21,6 +21,9 @@ import (
 	oracletypes "github.com/ExocoreNetwork/exocore/x/oracle/types"
 )
 
+// genForceUnbond, when non-zero, fixes EpochsUntilUnbonded of the next world (directed scenarios)
+var genForceUnbond uint32
+
 func newGenWorld(env *Env, rng *RNG, seed uint64) *genWorld {
 	return newGenWorldCfg(env, rng, seed, false)
 }
@@ -35,6 +38,9 @@ func newGenWorldCfg(env *Env, rng *RNG, seed uint64, withNST bool) *genWorld {
 	cfg.Powers = []int64{101, 100, 150}
 	cfg.EpochID = epochstypes.HourEpochID
 	cfg.EpochsUntilUnbonded = uint32(1 + rng.Intn(3))
+	if genForceUnbond != 0 {
+		cfg.EpochsUntilUnbonded = genForceUnbond // the draw above is kept so that the random stream does not depend on it
+	}
 	cfg.Assets[0].Addr = strings.ToLower(cfg.Assets[0].Addr) // a genesis document that itself passes Validate
 	c := NewChain(cfg)
 	w := &genWorld{c: c, env: env, rng: rng, optOut: map[int]bool{}}
@@ -195,17 +201,22 @@ func (w *genWorld) check(res roundTripResult, v1, v2 coreView, directed bool) {
 			continue
 		}
 		if m == "oracle" && strings.Contains(e, "not found in stakerLisetAssets") {
-			// F-18l: the exported staker-list asset ids carry the store prefix
+			// F-18l (repaired; kept under its own sig): the exported staker-list asset ids carry the store prefix
 			env.Violate("C18.validate", "oracle-stakerlist-key-doubled", "x/oracle GetAllStakerListAssets exports the full store key (NativeToken/stakerList/value/<assetID>) as asset id: the module's own export fails Validate: "+e, w.hist)
 			continue
 		}
+		if m == "oracle" && strings.Contains(e, "from stakerInfo has index") {
+			// F-18n (repaired): kept under its own sig so that a re-introduction is reported as such
+			env.Violate("C18.validate", "validate:oracle-stale-staker-index", "after a native-restaking staker left, the StakerIndex stored in the infos of the stakers behind it no longer matches their position in the staker list: the module's own export fails Validate: "+e, w.hist)
+			continue
+		}
 		if m == "oracle" && strings.Contains(e, "length not equal for stakerListAssets and stakerInfosAssets") {
-			// F-18m: the staker list entry of an NST asset outlives its last staker (empty list, no staker info left)
+			// F-18m (repaired; kept under its own sig): the staker list entry of an NST asset outlives its last staker
 			env.Violate("C18.validate", "validate:oracle-empty-stakerlist", "after the last native-restaking staker of an asset withdrew, x/oracle keeps an empty staker list for the asset and no staker info: the module's own export fails Validate: "+e, w.hist)
 			continue
 		}
 		if m == "assets" && strings.Contains(e, "unknown assetID for operator assets") && strings.Contains(e, assetstypes.ExocoreAssetID) {
-			// F-18j: a native-token delegation leaves an operator pool row under ExocoreAssetID, never a registered token
+			// F-18j (repaired; kept under its own sig): a native-token pool row under ExocoreAssetID, not a registered token
 			env.Violate("C18.validate", "validate:assets-native-pool", "after a native-token delegation the assets module's own export fails GenesisState.Validate (the operator pool row of "+assetstypes.ExocoreAssetID+" references a token that x/assets never lists): "+e, w.hist)
 			continue
 		}
@@ -243,6 +254,10 @@ func (w *genWorld) check(res roundTripResult, v1, v2 coreView, directed bool) {
 	for _, m := range sortedKeys(res.storeDiff) {
 		for _, k := range res.storeDiff[m] {
 			p := keyPrefixOf(k)
+			if m == "dogfood" && (p == dogfoodtypes.OptOutsToFinishBytePrefix || p == dogfoodtypes.OperatorOptOutFinishEpochBytePrefix) {
+				env.Violate("C18.store", "optout-rescheduled", "the opt-out schedule of x/dogfood (finish epoch -> operators, operator -> finish epoch) differs after the round trip: a pending opt-out must keep the finish epoch it was exported with: "+describeKeys([]string{k}), w.hist)
+				continue
+			}
 			if m == "dogfood" && p == 0x01 {
 				// F-18h (repaired): kept under its own sig so that a re-introduction is reported as such
 				env.Violate("C18.store", "validator-key-rotated-early", "a validator entry of x/dogfood differs after the round trip (a validator whose consensus key was replaced during the epoch must be exported under the key it still validates with, not under the operator's new key): "+describeKeys([]string{k}), w.hist)
@@ -313,6 +328,10 @@ func (w *genWorld) check(res roundTripResult, v1, v2 coreView, directed bool) {
 	}
 	env.Eval("C18.behaviour")
 	for _, d := range res.contDiff {
+		if strings.Contains(d, "opt-out completes") {
+			env.Violate("C18.behaviour", "optout-rescheduled", d, w.hist)
+			continue
+		}
 		if strings.Contains(d, "released") {
 			// F-18b (repaired): kept under its own sig
 			env.Violate("C18.behaviour", "early-release", d, w.hist)
@@ -335,7 +354,18 @@ func (w *genWorld) randomOps(n int) {
 	for i := 0; i < n; i++ {
 		si := w.rng.Intn(len(w.stakers))
 		oi := w.rng.Intn(len(c.Operators))
-		switch w.rng.Pick(3, 4, 4, 1, 4, 1, 2, 2, 1) {
+		switch w.rng.Pick(3, 4, 4, 1, 4, 1, 2, 2, 1, 1) {
+		case 9:
+			// one operator per history starts to opt out of the chain's own AVS: exported mid opt-out when epochs remain
+			if len(w.optOut) > 0 {
+				continue
+			}
+			err := w.optOutOp(oi)
+			if err == nil {
+				w.optOut[oi] = true
+			}
+			w.note("operator=%d opts out of the chain AVS: %s", oi, genErrClass(err))
+			w.env.Outcome("op:optout:" + genErrClass(err))
 		case 7:
 			// withdraw part of what is deposited and not delegated
 			if free[si] == 0 {
@@ -585,6 +615,25 @@ func domGenesis(env *Env) error {
 			}
 			env.Outcome(fmt.Sprintf("directed:D%d nst=%s", map[bool]int{false: 6, true: 7}[both], strings.Join(r, "/")))
 			w.runOne(0, true, 4)
+		}
+		// directed 8: an operator in the middle of opting out of the chain's own AVS at export time, with 1 and with 2 epoch
+		// ends between the opt-out and the export (3 unbonding epochs): the re-imported chain must carry the SAME finish
+		// epoch and both chains, run on in half-epoch steps, must complete the opt-out in the same block
+		for _, elapsed := range []int{1, 2} {
+			genForceUnbond = 3
+			w = newGenWorld(env, rng, env.Report.Seed*1000+908)
+			genForceUnbond = 0
+			c = w.c
+			c.EndAndBegin(time.Minute)
+			e := w.optOutOp(2)
+			w.note("operator=2 opts out of the chain AVS: %s", genErrClass(e))
+			for i := 0; i < elapsed; i++ {
+				c.EndAndBegin(time.Hour + time.Second)
+			}
+			c.EndAndBegin(time.Minute)
+			env.Outcome(fmt.Sprintf("directed:D8 optout=%s elapsed=%d pending=%d", genErrClass(e), elapsed, len(readCore(c, c.Ctx).OptOuts)))
+			w.contStep = 31 * time.Minute
+			w.runOne(0, true, 12)
 		}
 	}
 	for hi := 0; hi < n; hi++ {
